@@ -14,6 +14,7 @@ import (
 
 	"github.com/beevik/etree"
 	"github.com/crewjam/saml"
+	"time"
 )
 
 const (
@@ -267,7 +268,10 @@ func (c *Ctx) genC03() {
 		}
 	}
 	// destination = received-at URL but not the ACS URL
-	variants(func(cfg SPCfg, r *Resp) { r.Dest = "https://sp.example.com/saml/acs?session=1"; c.count("c03-single", "destination:current-url") })
+	variants(func(cfg SPCfg, r *Resp) {
+		r.Dest = "https://sp.example.com/saml/acs?session=1"
+		c.count("c03-single", "destination:current-url")
+	})
 	// several audiences
 	for n := 0; n <= 3; n++ {
 		for hit := -1; hit < n; hit++ {
@@ -455,7 +459,30 @@ func (c *Ctx) runArtifact(k artCase, viaHTTP bool) {
 	c.emit("artifact", toks, impl, oracleCmp(spec, impl))
 }
 
+// middlewareOutstanding: which request IDs the real samlsp.Middleware treats as outstanding (C04_middleware_ids): flows are started,
+// then responses with a matching, a foreign and an *absent* InResponseTo are delivered with the browser's tracking cookies.
+func (c *Ctx) middlewareOutstanding() {
+	for h := 0; h < 6; h++ {
+		w := c.newWorld("https://sp.example.com", map[bool]string{true: saml.HTTPPostBinding, false: ""}[h%2 == 1])
+		nf := 1 + h%3
+		for k := 0; k < nf; k++ {
+			w.startFlow(fmt.Sprintf("/app/page%d", k))
+			w.now = w.now.Add(2 * time.Second)
+		}
+		for _, f := range w.flows {
+			w.deliver("", true, copyJar(w.jar), f.index, "unsolicited-no-inresponseto")
+			w.deliver("id-foreign", true, copyJar(w.jar), f.index, "foreign-inresponseto")
+			w.deliver(f.id+"x", true, copyJar(w.jar), f.index, "extension-of-outstanding-id")
+			w.deliver(f.id, true, map[string]string{}, f.index, "no-cookies")
+		}
+		for _, f := range w.flows {
+			w.deliver(f.id, true, copyJar(w.jar), f.index, "faithful")
+		}
+	}
+}
+
 func (c *Ctx) genC04() {
+	defer c.middlewareOutstanding()
 	now := ms(baseTime)
 	idSets := [][]string{{}, {"id-req1"}, {"id-other", "id-req1", "id-third"}, {""}, {"", "id-req1"}, {"id-req", "id-req10", "ID-REQ1"}, {"id-other"}}
 	irts := []string{"id-req1", "id-nope", "", "id-req", "id-req10"}
